@@ -156,6 +156,32 @@ def resolveTxs (p : Provider) (valid : Nat → Bool) : List OutPoint → List Tx
       | .error e => .error e
       | .ok (rs, s) => .ok (r :: rs, s)
 
+/-! ### Header deps: `HeaderChecker::check_valid` of `Snapshot` / `VerifyContext` -/
+
+/-- `get_block_hash(n)` in the number → hash index of the chain whose tip is `cur`: walk the parent
+links down to height `n` (fuel = tip number + 1) -/
+def chainAt (db : Since.HeaderDb) : Nat → Nat → Nat → Option Nat
+  | 0, _, _ => none
+  | fuel + 1, cur, n =>
+    match Since.findHdr db cur with
+    | none => none
+    | some hd =>
+      if hd.number = n then some cur
+      else if hd.number < n then none
+      else chainAt db fuel hd.parent n
+
+/-- `ChainStore::is_main_chain(hash)`: `get_block_number(hash)` is known and the index holds `hash`
+at that height; `tip` = the last attached block (the snapshot's tip for the pool, the parent of the
+block under verification for `VerifyContext`) -/
+def isMainChain (db : Since.HeaderDb) (tip h : Nat) : Bool :=
+  match Since.findHdr db h, Since.findHdr db tip with
+  | some hd, some t => chainAt db (t.number + 1) tip hd.number == some h
+  | _, _ => false
+
+/-- the header-dep loop of `resolve_transaction` at the commit position of `env` -/
+def headerDepsCheck (db : Since.HeaderDb) (env : Since.Env) (hds : List Nat) : Except RErr Unit :=
+  checkHeaders (isMainChain db env.parentOfCommit) hds
+
 /-! ### Block and pool providers -/
 
 /-- a block transaction as the providers see it -/
